@@ -9,7 +9,7 @@ namespace SV.Repetitions
 theorem inBucket_cons (iv : Nat) (x : IDSource) (xs : List IDSource) (k : Nat) :
     inBucket iv (x :: xs) k = inBucket iv xs k + (if bucketOf x.1 iv = k then 1 else 0) := by
   unfold inBucket
-  by_cases h : bucketOf x.1 iv = k <;> simp [List.filter_cons, h]
+  by_cases h : bucketOf x.1 iv = k <;> simp [h]
 
 theorem dec64_pos (v : Nat) (h1 : 1 ≤ v) (h2 : v < two64) : dec64 v = v - 1 := by
   unfold dec64 two64 at *
